@@ -79,6 +79,12 @@ CHECKS["C11"] = ("model_checking",
     "Known finding (recorded, not repaired): non-finite floats are emitted as bare NaN/Infinity tokens. Versions containing '#' are outside the alphabet (versions are uuids or empty).",
     "DESIGN.md §3 C11")
 
+CHECKS["C12"] = ("model_checking",
+    "exhaustive enumeration of name/version strings (pure parse round trip and real store round trip) and of evolution histories of a caller/callee pair, cross-process and in-process",
+    "A: every version string over {a,1,.,_,-,+,=,:,#,@} up to length 3 (quick) / 4 (thorough) x 4 cluster names (incl. one with ':') x 2 modules x 2 function names must parse back into exactly its parts. B: a sub-alphabet of versions (all single characters, all two-character strings starting with ':' '#' '1', more in thorough) is used as a real explicit version in the default and in a named cluster (package and cluster names starting with 'm') on memory and filesystem backends: body once, hit, memento(), list_mementos(), list_memoized_functions(). C: every step sequence of length <= 2 over {edit, bump, remove, rename, recluster, make plain, restore} of the callee (auto or explicit) with the caller's version pinned, in default and named clusters, delivered cross-process and in one process: the caller is served, no metadata read raises, references to vanished versions are external.",
+    "Cluster names do not contain '::' or '#'; module/function names are dotted identifiers; a callee that only moved to another cluster is not counted as vanished.",
+    "DESIGN.md §3 C12")
+
 PENDING = {}
 
 
